@@ -75,6 +75,7 @@ T = [
 ("C17","fix: Abs joined a rooted Windows path","on a Windows-typed file system a rooted path without volume (\\Users, as avfs.HomeDir(vfs, \"\") returns it) was joined to the current directory instead of the root of the current volume: Stat of it failed from any directory but the root, the Linux-typed twin succeeds"),
 ("C11","fix: a view returned by Sub of a Windows-typed MemFS","a Sub view of a Windows-typed MemFS was not confined: view.Stat(`C:\\data`) succeeded on a view rooted at `C:\\data\\view`, files outside the directory and on other volumes were read and written through the view (the volume table was shared with the parent and every path resolved from the parent's volume root)"),
 ("C11","fix: searchNode did not check search permission","a MemFS view never checked search permission on its own root directory: a non-administrator user of Sub(dir) read and wrote below dir although the parent refuses the same path prefixed with dir with EACCES; a refused RemoveAll through such a view had already emptied files (were KF-C11-001 and KF-C11-002)"),
+("C12","fix: a file system returned by FailFS.Sub kept","a file system obtained with FailFS.Sub before SetFailFunc never consulted the function installed later (sub.Mkdir changed the base under ReadOnlyFunc), and one obtained under a function kept it after it was replaced: Sub copied the function instead of sharing it"),
 ]
 log = subprocess.check_output(['git','-C','/repo','log','--format=%h %s','adfd2e3..HEAD']).decode().strip().split('\n')
 subj = {}
